@@ -154,7 +154,8 @@ def nobody_returns(acc, img, cfg, seed, case, replay):
         ex.world.advance(EXPIRY + 2 * PERIOD + 1)
         tr = ex.tracker
         bad = [v for v in tr.violations if v["kind"] in ("sweep failed", "timer fired without a sweep", "service failed to start/stop",
-                                                         "failed sweep left partial changes")]
+                                                         "failed sweep left partial changes",
+                                                         "database connection opened with weakened durability settings")]
         if bad:
             viol(acc, case, "sweeps on the crashed files fail internally", {"first": bad[0], "image": _img(img)}, replay)
             return
